@@ -19,6 +19,13 @@ PlainCases == UNION { { [cls |-> "plain", in |-> [kind |-> "plain", size |-> s, 
                          expect |-> [err |-> FALSE, equal |-> TRUE, length |-> s, type_ok |-> TRUE, duplicates |-> 0]]
                         : s \in Sizes(p), t \in {1, 2, 3, 8}, m \in {"stream", "parallel"}, f \in FaultsP }
                       : p \in {4 * KiB, 64 * KiB} }
+\* the same with a writer that stalls while the queue between the workers and the writer is full: the last (short) part
+\* has been fetched but not handed over when an idle worker asks for the next part (DownloadAlg.tla: Take after the
+\* Answer that set stop, before that answer's worker reported)
+StallCases == { [cls |-> "plain", in |-> [kind |-> "plain", size |-> (t + 2) * p + 100, part |-> p, threads |-> t, mode |-> "parallel",
+                                            faults |-> <<>>, writer |-> "stall"],
+                  expect |-> [err |-> FALSE, equal |-> TRUE, length |-> (t + 2) * p + 100, type_ok |-> TRUE, duplicates |-> 0]]
+                : t \in {2, 3}, p \in {4 * KiB} }
 KeepPlain(c) == /\ (c.in.mode = "stream" => c.in.threads = 1)
                 /\ (c.in.faults # <<>> => c.in.part = 4 * KiB /\ c.in.size >= 3 * c.in.part /\ c.in.threads \in {1, 2, 3})
                 /\ (c.in.faults # <<>> /\ c.in.faults[1].kind = "flood" => c.in.threads \in {2, 3} /\ c.in.mode = "parallel")
@@ -73,5 +80,5 @@ PlanCases == { [cls |-> "plan", in |-> [kind |-> "plan", offset |-> o, limit |->
                : o \in {x \in Grid : Thorough \/ x % (64 * KiB) \in {0, 4 * KiB, 60 * KiB}}, l \in {x \in Grid \ {0} : Thorough \/ x % (32 * KiB) \in {0, 4 * KiB, 28 * KiB}} }
              \cup { [cls |-> "plan", in |-> [kind |-> "plan", offset |-> o, limit |-> l], expect |-> [ok |-> FALSE]]
                     : o \in {0, 1, 4095, 4097, -4096}, l \in {0, -4096, 1, 4095, 4097} }
-ASSUME Dump == \A c \in {x \in PlainCases : KeepPlain(x)} \cup {x \in VerifyCases : KeepVerify(x)} \cup {x \in CdnCases : KeepCdn(x)} \cup PlanCases : PrintT(ToJson(c))
+ASSUME Dump == \A c \in {x \in PlainCases : KeepPlain(x)} \cup StallCases \cup {x \in VerifyCases : KeepVerify(x)} \cup {x \in CdnCases : KeepCdn(x)} \cup PlanCases : PrintT(ToJson(c))
 =============================================================================
